@@ -2,6 +2,7 @@ package lint
 
 import (
 	"fmt"
+	"go/ast"
 	"go/constant"
 	"go/token"
 	"go/types"
@@ -488,6 +489,32 @@ func (m *Model) ruleCOLL(r *Results) {
 			switch owner {
 			case m.A.CollectionType:
 				ok, why := m.useConstrained(s, u, uses, idFields, 0)
+				if !ok {
+					// an unexported method that is handed the collection id (e.g. inside a key struct):
+					// decided in the context of each of its callers, which must all be collection methods
+					callers := m.staticCallersOf(rootOf(s.Fn))
+					if len(callers) == 0 && !ast.IsExported(rootOf(s.Fn).Name()) && len(m.hybridCallersOf(rootOf(s.Fn))) == 0 {
+						ok, why = true, "unexported method that nothing calls"
+					}
+					if len(callers) > 0 && !ast.IsExported(rootOf(s.Fn).Name()) {
+						all := true
+						for _, cs := range callers {
+							if m.methodOwner(rootOf(cs.Parent())) != m.A.CollectionType {
+								all = false
+								break
+							}
+							s.evalFrame = m.closureFrame(cs.Parent()).inline(cs, rootOf(s.Fn))
+							ok2, _ := m.useConstrained(s, u, uses, idFields, 0)
+							s.evalFrame = nil
+							if !ok2 {
+								all = false
+							}
+						}
+						if all {
+							ok, why = true, "restricted to the calling collection at every call site"
+						}
+					}
+				}
 				if ok {
 					r.ok(rule, ck, pos, "%s", why)
 				} else {
@@ -510,6 +537,22 @@ func (m *Model) ruleCOLL(r *Results) {
 					break
 				}
 				for _, cs := range callers {
+					if strings.HasSuffix(cs.Parent().Name(), "$bound") {
+						// the method is used as a bound method value (x.m handed to the transaction
+						// runner): decide it where the value is created
+						fr := m.closureFrame(rootOf(s.Fn))
+						if fr.recv != nil && fr.caller != nil && m.methodOwner(rootOf(fr.caller.fn)) == m.A.CollectionType {
+							s.evalFrame = fr
+							ok, why := m.useConstrained(s, u, uses, idFields, 0)
+							s.evalFrame = nil
+							if ok {
+								r.ok(rule, ck+" via "+m.declName(fr.caller.fn), pos, "%s", why)
+							} else {
+								r.bad(rule, ck+" via "+m.declName(fr.caller.fn), pos, "helper statement ranges over %s without being restricted to the calling collection: %s", u.Table, why)
+							}
+							continue
+						}
+					}
 					if m.methodOwner(cs.Parent()) != m.A.CollectionType {
 						r.bad(rule, ck+" via "+m.declName(cs.Parent()), m.instrPos(cs), "helper with a statement on collection-owned table %s is called from outside a collection method", u.Table)
 						continue
@@ -1309,6 +1352,18 @@ func (m *Model) reachableLocal(fn *ssa.Function) map[*ssa.Function]bool {
 		m.eachCall(f, func(c ssa.CallInstruction) {
 			visit(c.Common().StaticCallee())
 		})
+		// a bound method value (x.m) created here runs on behalf of this function
+		for _, b := range f.Blocks {
+			for _, ins := range b.Instrs {
+				if mc, ok := ins.(*ssa.MakeClosure); ok {
+					if w, ok := mc.Fn.(*ssa.Function); ok && strings.HasSuffix(w.Name(), "$bound") {
+						for _, t := range m.funcTargets(mc) {
+							visit(t)
+						}
+					}
+				}
+			}
+		}
 	}
 	visit(fn)
 	return seen
